@@ -44,15 +44,15 @@ def new_session(c, log, table, tag=''):
     c.invoke((log, 'refresh_toc'), c.ext('refresh_done'), c.ext('toc_cache'))
     c.invoke((log, '_new_packet_cb'), c.new(STK + ':CRTPPacket', 0x5D, bytes([CMD_RESET, 0, 0])))
     toc = c.getfield(log, 'toc')
-    idents = []
+    idents = {}
     for i, (nm, ty) in enumerate(table):
         ident = c.int('ident%s_%d' % (tag, i), 0, 65535)
-        for j in idents:
-            c.require('ident%s_%d != ident%s_%d' % (tag, i, tag, j))
-        idents.append(i)
+        for j in range(i):
+            c.require('ident%s_%d != ident%s_%d' % (tag, j, tag, i))      # (smaller index first: matches the solver's normal form)
+        idents[nm] = 'ident%s_%d' % (tag, i)
         c.invoke((toc, 'add_element'), toc_element(c, ident, nm, ty))
     c.reset_trace()
-    return toc
+    return idents
 
 
 def connected(c, table, ver=None):
@@ -118,11 +118,15 @@ def logvariable_types(c):
         c.ensure('kind', 'result is (not mem)')
 
 
+PERIOD_SEGMENTS = ['p < 0', '0 <= p < 8', '8 <= p < 16', '16 <= p < 2048', '2048 <= p < 4096', '4096 <= p', 'is_nan(p)']
+
+
 @contract('C05', 'logconfig.period.float', [LOG + ':LogConfig.__init__'],
           clause='the period field (10 ms units) is in the accepted range 1..254 iff the period is between 10 ms and 2.55 s (excl.), '
-                 'for every double (ints below 2**53 divide like the double of the same value)')
+                 'for every double (ints below 2**53 divide like the double of the same value); the case split on the magnitude of p is exhaustive')
 def period_float(c):
     p = c.float('p')
+    c.require(c.choice('segment', PERIOD_SEGMENTS))
     c.call(c.cls(LOG + ':LogConfig'), 'blk', p)
     c.ensure('constructed-unless-nan-or-inf', 'iff(raised is not None, is_nan(p) or is_inf(p))')
     if c.get('raised') is None:
@@ -199,7 +203,7 @@ def do_add_config(c, log, conf):
     c.call((log, 'add_config'), conf)
 
 
-def _add_config(label, types, bound):
+def _add_config(label, types, bound, typings, missings):
     n = len(types)
 
     @contract('C05', 'add_config.%s' % label, ADD_F,
@@ -208,8 +212,8 @@ def _add_config(label, types, bound):
               bounded=bound)
     def k(c):
         names = names_for(n)
-        missing = c.choice('missing', ['none'] + sorted(set([0, n // 2, n - 1])) if n else ['none'])
-        typing = c.choice('typing', ['explicit', 'from-table', 'mixed'] if n else ['explicit'])
+        missing = c.choice('missing', missings)
+        typing = c.choice('typing', typings)
         table = [(nm, ty) for i, (nm, ty) in enumerate(zip(names, types)) if i != missing]
         cf, log = connected(c, table)
         if typing == 'explicit':
@@ -224,7 +228,8 @@ def _add_config(label, types, bound):
     return k
 
 
-_B = 'variable list of %d variables with the type pattern %s (payload %d bytes); which variable is missing from the table: none/first/middle/last; period symbolic'
+_B = ('variable list of %d variables with the type pattern %s (payload %d bytes); variable missing from the table: %s; '
+      'types given %s; period and table indices symbolic')
 for _label, _types in (('n0', []),
                        ('n1.u8', ['uint8_t']),
                        ('n26.bytes', ['uint8_t', 'int8_t'] * 13),
@@ -237,4 +242,730 @@ for _label, _types in (('n0', []),
                        ('n7.mixed26', ['float', 'uint32_t', 'int32_t', 'float', 'uint32_t', 'int32_t', 'FP16']),
                        ('n8.mixed27', ['float', 'uint32_t', 'int32_t', 'float', 'uint32_t', 'int32_t', 'FP16', 'uint8_t']),
                        ('n10.all-types26', TYPE_NAMES + ['uint32_t', 'uint16_t'])):
-    _add_config(_label, _types, _B % (len(_types), _types, size_of(_types)))
+    _n = len(_types)
+    _miss = ['none'] + (sorted(set([0, _n // 2, _n - 1])) if _n else [])
+    _typ = ['explicit', 'from-table', 'mixed'] if _n else ['explicit']
+    if _n >= 13:        # one contract (= one process) per combination for the long lists
+        for _t in _typ:
+            for _m in (_miss if _n >= 26 else [_miss]):
+                _ml = _m if isinstance(_m, list) else [_m]
+                _add_config('%s.%s%s' % (_label, _t, '' if len(_ml) > 1 else '.missing-%s' % _ml[0]), _types,
+                            _B % (_n, _types, size_of(_types), _ml, _t), [_t], _ml)
+    else:
+        _add_config(_label, _types, _B % (_n, _types, size_of(_types), _miss, _typ), _typ, _miss)
+
+
+@contract('C05', 'add_config.not-connected', [LOG + ':Log.add_config'],
+          clause='without a connection (no table to check against) nothing is registered and nothing is sent')
+def add_config_not_connected(c):
+    cf, log = connected(c, [('g0.v0', 'float')])
+    c.set(cf, 'link', None)
+    conf = new_config(c, [('g0.v0', 'float'), ('g0.v1', None)])
+    c.snapshot('id0', 'log._config_id_counter')
+    c.reset_trace()
+    c.call((log, 'add_config'), conf)
+    c.ensure('no-effect', 'raised is None and len(trace) == 0 and log.log_blocks == [] and conf.valid is False and conf.cf is None and '
+             'log._config_id_counter == id0 and len(conf.variables) == 1 and conf.default_fetch_as == ["g0.v1"]')
+
+
+# --------------------------------------------------------------------------------------- block creation
+
+CREATE_F = [LOG + ':LogConfig.start', LOG + ':LogConfig.create', LOG + ':LogConfig._setup_log_elements', LOG + ':LogConfig._cmd_create_block',
+            LOG + ':LogConfig._cmd_append_block', LOG + ':LogVariable.get_storage_and_fetch_byte', TOC + ':Toc.get_element_id',
+            STK + ':CRTPPacket.available_data_size']
+
+
+def added_config(c, variables, table, symbolic_id=True, period=None):
+    """connected log + accepted configuration `conf` (real add_config); block id symbolic (any value of the id counter)"""
+    cf, log = connected(c, table)
+    if symbolic_id:
+        c.set(log, '_config_id_counter', c.int('next_id', 0, 254))
+    conf = new_config(c, variables, period=period)
+    c.invoke((log, 'add_config'), conf)
+    c.reset_trace()
+    return cf, log, conf
+
+
+def device_decode_creation(c, name='conf', first=0):
+    """The device model for block creation (firmware logCreateBlockV2 / logAppendBlockV2): every settings message is
+    (command, block id) + (len - 2) // 3 triples (type byte, table index low, high); the first message must be a V2 create,
+    all later ones V2 appends.  Checks the per-message rules and returns the number of decoded triples; the decoded triples
+    are bound as dev_0, dev_1, ... = (type byte, table index)."""
+    c.snapshot('msgs', "sent('cf.send_packet')")
+    c.ensure('nothing-but-transmissions', "len(trace) == len(msgs)")
+    n = 0
+    for k in range(first, len(c.get('msgs'))):
+        c.snapshot('pk', 'msgs[%d][1][0]' % k)
+        c.let('cmd', CMD_CREATE_V2 if k == first else CMD_APPEND_V2)
+        c.ensure('message-within-30-bytes', 'len(pk.data) <= 30')
+        c.ensure('message-is-create-then-append-for-this-block', 'pk.port == 5 and pk.channel == 1 and len(pk.data) >= 2 and pk.data[0] == cmd and pk.data[1] == %s.id' % name)
+        c.ensure('retry-pattern-is-command-and-id', "msgs[%d][2]['expected_reply'] == (cmd, %s.id) and len(msgs[%d][1]) == 1" % (k, name, k))
+        ln = c.concretize('len(pk.data)')
+        for j in range((ln - 2) // 3):
+            c.snapshot('dev_%d' % n, '(pk.data[%d], pk.data[%d] + 256 * pk.data[%d])' % (2 + 3 * j, 3 + 3 * j, 4 + 3 * j))
+            n += 1
+    return n
+
+
+def creation_matches(c, n_decoded, expected_expr):
+    c.snapshot('expected_entries', expected_expr)
+    c.snapshot('device_entries', '(' + ''.join('dev_%d, ' % i for i in range(n_decoded)) + ')')
+    c.ensure('variables-enumerated-once-in-order-with-index-and-types', 'device_entries == expected_entries')
+
+
+def type_pattern(n, budget=MAX_PAYLOAD):
+    """n type names using every type as far as the 26-byte payload allows"""
+    out = []
+    k = 0
+    for i in range(n):
+        room = budget - size_of(out) - (n - i - 1)
+        for _ in range(8):
+            t = TYPE_NAMES[k % 8]
+            k += 1
+            if TYPES[t][2] <= room:
+                break
+        else:
+            t = 'uint8_t'
+        out.append(t)
+    return out
+
+
+def _create(n):
+    types = type_pattern(n)
+
+    @contract('C05', 'create.n%d' % n, CREATE_F,
+              clause='the block-creation messages of an accepted configuration enumerate exactly its variables, once each and in order, with the '
+                     'table index and the stored/fetched type byte, first message create, later ones append, each within 30 bytes; nothing else is sent',
+              bounded='%d variables (0..26 enumerated = everything add_config accepts) with types %s; table indices, block id and protocol version >= 4 symbolic' % (n, types))
+    def k(c):
+        names = names_for(n)
+        table = list(zip(names, types))
+        typing = c.choice('typing', ['explicit', 'from-table'] if n else ['explicit'])
+        variables = table if typing == 'explicit' else [(nm, None) for nm in names]
+        cf, log, conf = added_config(c, variables, table, period=c.int('period', 1, 254))
+        c.call((conf, 'start'))
+        c.ensure('no-exception', 'raised is None')
+        nd = device_decode_creation(c)
+        creation_matches(c, nd, '(' + ''.join('(%d, ident_%d), ' % (TYPES[t][0] * 17, i) for i, t in enumerate(types)) + ')')
+        c.ensure('marked-pending-not-yet-added', 'conf.pending and conf.added is False and conf.started is False')
+    return k
+
+
+for _n in range(0, 27):
+    _create(_n)
+
+
+@contract('C05', 'create.memory-variable', CREATE_F + [LOG + ':LogConfig.add_memory'],
+          clause='a configuration with a raw-memory variable is created as configured: type byte and 32-bit address of the variable in the create message')
+def create_memory_variable(c):
+    cf, log = connected(c, [('g0.v0', 'float')])
+    f = c.choice('fetch', ['uint8_t', 'float'])
+    s = c.choice('stored', ['uint32_t', 'FP16'])
+    c.int('address', 0, 2 ** 32 - 1)
+    conf = c.new(LOG + ':LogConfig', 'conf', 100)
+    c.let('conf', conf)
+    c.invoke((conf, 'add_memory'), 'raw', f, s, c.get('address'))
+    c.call((log, 'add_config'), conf)
+    c.ensure('accepted', 'raised is None and conf.valid is True')
+    c.reset_trace()
+    c.call((conf, 'start'))
+    c.ensure('no-exception', 'raised is None')
+    if c.get('raised') is None:
+        c.let('tb', TYPES[f][0] + 16 * TYPES[s][0])
+        c.ensure('one-create-message', "len(sent('cf.send_packet')) == 1 and len(trace) == 1")
+        c.ensure('layout', "bytes(sent('cf.send_packet')[0][1][0].data) == pack('<BBBI', 6, conf.id, tb, address)")
+
+
+def _limits(kind):
+    @contract('C05', 'create.limits.%s' % kind, [LOG + ':LogConfig.create'],
+              clause='block creation is refused before anything is sent when 16 blocks are already pending/added/started or when the variables of '
+                     'those blocks plus the new ones exceed 128 (device limits); otherwise it proceeds',
+              bounded=('17 other blocks, 14 of them active, 3 with symbolic pending/added/started flags' if kind == 'blocks' else
+                       '7 other blocks: 4 active with 26 variables, 3 with 20, 2 and 1 variables and symbolic flags; own configuration 2 variables'))
+    def k(c):
+        table = [('g0.v0', 'float'), ('g1.v1', 'uint8_t')]
+        cf, log, conf = added_config(c, table, table)
+        others = []
+        if kind == 'blocks':
+            shapes = [(0, 'pas'[i % 3]) for i in range(14)] + [(1, None)] * 3
+        else:
+            shapes = [(26, 'pas'[i % 3]) for i in range(4)] + [(20, None), (2, None), (1, None)]
+        terms, vterms = [], []
+        for i, (nv, flag) in enumerate(shapes):
+            o = new_config(c, [('x.y%d' % j, 'uint8_t') for j in range(nv)], name='other%d' % i)
+            if flag is None:
+                for fl, attr in (('p', 'pending'), ('a', '_added'), ('s', '_started')):
+                    c.set(o, attr, c.bool('%s%d' % (fl, i)))
+                terms.append('(1 if (p%d or a%d or s%d) else 0)' % (i, i, i))
+                vterms.append('(%d if (p%d or a%d or s%d) else 0)' % (nv, i, i, i))
+            else:
+                c.set(o, {'p': 'pending', 'a': '_added', 's': '_started'}[flag], True)
+                terms.append('1')
+                vterms.append('%d' % nv)
+            others.append(o)
+        c.set(log, 'log_blocks', c.list(others[:5] + [conf] + others[5:]))
+        c.reset_trace()
+        c.call((conf, 'start'))
+        c.snapshot('active', ' + '.join(terms))
+        c.snapshot('active_vars', ' + '.join(vterms))
+        c.ensure('refused-iff-device-limits-exceeded', "iff(raised is not None, active >= 16 or active_vars + 2 > 128) and raised in (None, 'AttributeError')")
+        c.ensure('nothing-sent-when-refused', "implies(raised is not None, len(trace) == 0 and not conf.pending)")
+        c.ensure('created-otherwise', "implies(raised is None, len(sent('cf.send_packet')) == 1 and len(trace) == 1 and conf.pending)")
+    return k
+
+
+_limits('blocks')
+_limits('variables')
+
+
+# --------------------------------------------------------------------------------------- acknowledgements
+
+ACK_F = [LOG + ':Log._new_packet_cb', LOG + ':Log._find_block', LOG + ':LogConfig._set_added', LOG + ':LogConfig._set_started',
+         LOG + ':LogConfig._get_added', LOG + ':LogConfig._get_started']
+
+
+def deliver_settings(c, log, cmd_expr, id_expr, status_expr):
+    """the device's answer on the log settings channel: (command, block id, status)"""
+    c.snapshot('ackdata', 'bytes([%s, %s, %s])' % (cmd_expr, id_expr, status_expr))
+    c.call((log, '_new_packet_cb'), c.new(STK + ':CRTPPacket', 0x5D, c.get('ackdata')))
+
+
+def settings_message_is(c, k, layout_expr, reply_expr):
+    c.snapshot('pk', "sent('cf.send_packet')[%d][1][0]" % k)
+    return ("pk.port == 5 and pk.channel == 1 and bytes(pk.data) == %s and sent('cf.send_packet')[%d][2]['expected_reply'] == %s "
+            "and len(sent('cf.send_packet')[%d][1]) == 1" % (layout_expr, k, reply_expr, k))
+
+
+@contract('C05', 'ack.step', ACK_F,
+          clause='the added/started flags and their callbacks change only as the acknowledgement dictates: start is sent exactly on a create '
+                 'acknowledgement with status 0/EEXIST for a block that is not yet added; added on that, started on a successful start, stopped on a '
+                 'successful stop, both cleared on delete (0/ENOENT); errors are reported and change no flag; other blocks are never touched',
+          bounded='two registered blocks in any flag state; any command byte, block id and any status the firmware can answer (0, ENOENT, ENOEXEC, ENOMEM, E2BIG, EEXIST)')
+def ack_step(c):
+    table = [('g0.v0', 'float'), ('g1.v1', 'uint8_t')]
+    cf, log = connected(c, table)
+    c.set(log, '_config_id_counter', c.int('next_id', 0, 253))
+    blocks = []
+    for nm in ('A', 'B'):
+        b = new_config(c, table, name=nm, period=c.int('period' + nm, 1, 254))
+        c.invoke((log, 'add_config'), b)
+        c.set(b, '_added', c.bool('added' + nm))
+        c.set(b, '_started', c.bool('started' + nm))
+        c.set(b, 'pending', c.bool('pending' + nm))
+        c.set(b, 'err_no', c.int('errno' + nm, 0, 255))
+        watch(c, b, nm)
+        blocks.append(b)
+    c.int('cmd', 0, 255), c.int('bid', 0, 255), c.int('status', 0, 255)
+    c.require('status in (0, %d, %d, %d, %d, %d)' % ERR_CODES)
+    c.reset_trace()
+    deliver_settings(c, log, 'cmd', 'bid', 'status')
+    c.ensure('no-exception', 'raised is None')
+    c.snapshot('ok_status', 'status == 0 or status == %d' % EEXIST)
+    c.snapshot('is_create', 'cmd == 0 or cmd == 6')
+    for nm in ('A', 'B'):
+        c.let('T', c.get(nm))
+        c.let('added0', c.get('added' + nm)), c.let('started0', c.get('started' + nm)), c.let('pending0', c.get('pending' + nm))
+        c.let('errno0', c.get('errno' + nm))
+        c.snapshot('hit', 'bid == T.id')
+        c.snapshot('creates', 'hit and is_create and ok_status and not added0')
+        c.snapshot('create_err', 'hit and is_create and not ok_status')
+        c.snapshot('start_err', 'hit and cmd == 3 and status != 0')
+        c.snapshot('deleted', 'hit and cmd == 2 and (status == 0 or status == %d)' % ENOENT)
+        c.snapshot('added1', 'True if creates else (False if deleted else added0)')
+        c.snapshot('started1', 'True if (hit and cmd == 3 and status == 0) else (False if (deleted or (hit and cmd == 4 and status == 0)) else started0)')
+        c.ensure(nm + '-flags-follow-the-acknowledgement', 'T.added is added1 and T.started is started1')
+        c.ensure(nm + '-pending-cleared-only-when-created', 'T.pending is (False if creates else pending0)')
+        c.ensure(nm + '-error-code-recorded-only-on-errors', 'T.err_no == (status if (create_err or start_err) else errno0)')
+        c.snapshot('n_added_cb', "len(sent('%s_added'))" % nm)
+        c.snapshot('n_started_cb', "len(sent('%s_started'))" % nm)
+        c.snapshot('n_error_cb', "len(sent('%s_error'))" % nm)
+        c.ensure(nm + '-added-callback-iff-change-or-create-error', 'n_added_cb == (1 if (added1 != added0 or create_err) else 0)')
+        c.ensure(nm + '-started-callback-iff-change-or-start-error', 'n_started_cb == (1 if (started1 != started0 or start_err) else 0)')
+        c.ensure(nm + '-error-callback-iff-create-error', 'n_error_cb == (1 if create_err else 0)')
+        if len(c.get('trace')) and c.concretize('n_added_cb') == 1:
+            c.snapshot('cbargs', "sent('%s_added')[0][1]" % nm)
+            c.ensure(nm + '-added-callback-arguments', '(cbargs[-1] is False) if create_err else (is_same(cbargs[0], T) and cbargs[1] is added1)')
+        if len(c.get('trace')) and c.concretize('n_started_cb') == 1:
+            c.snapshot('cbargs', "sent('%s_started')[0][1]" % nm)
+            c.ensure(nm + '-started-callback-arguments', '(cbargs[-1] is False) if start_err else (is_same(cbargs[0], T) and cbargs[1] is started1)')
+        if len(c.get('trace')) and c.concretize('n_error_cb') == 1:
+            c.ensure(nm + '-error-callback-arguments', "is_same(sent('%s_error')[0][1][0], T) and typename(sent('%s_error')[0][1][1]) == 'str'" % (nm, nm))
+        c.ensure(nm + '-no-data-callback', "len(sent('%s_data_received')) == 0" % nm)
+    c.let('A', blocks[0]), c.let('B', blocks[1])
+    c.snapshot('TA', 'bid == A.id and is_create and ok_status and not addedA')
+    c.snapshot('TB', 'bid == B.id and is_create and ok_status and not addedB')
+    c.ensure('start-sent-exactly-on-successful-create-of-a-new-block', "len(sent('cf.send_packet')) == (1 if (TA or TB) else 0) and len(calls('cf.')) == len(sent('cf.send_packet'))")
+    if len(c.get('trace')) and len([e for e in c.get('trace') if e[0] == 'cf.send_packet']) == 1:
+        c.ensure('start-message', settings_message_is(c, 0, "pack('<BBB', 3, bid, A.period if TA else B.period)", '(3, bid)'))
+    c.ensure('registrations-unchanged', 'len(log.log_blocks) == 2 and is_same(log.log_blocks[0], A) and is_same(log.log_blocks[1], B)')
+
+
+# --------------------------------------------------------------------------------------- log data
+
+DATA_F = [LOG + ':Log._new_packet_cb', LOG + ':Log._find_block', LOG + ':LogConfig.unpack_log_data', LOG + ':LogTocElement.get_size_from_id',
+          LOG + ':LogTocElement.get_unpack_string_from_id']
+
+
+def device_sample(c, types, tag):
+    """the device side of one log data packet: symbolic values of the given types and a 24-bit timestamp; returns
+    (expression of the packet payload after the block id, list of per-variable checks on a decoded value `got`)"""
+    c.int('ts' + tag, 0, 2 ** 24 - 1)
+    parts = ["bytes([ts%s & 255, (ts%s >> 8) & 255, ts%s >> 16])" % (tag, tag, tag)]
+    checks = []
+    for i, t in enumerate(types):
+        _id, fmt, size = TYPES[t]
+        v = 'val%s_%d' % (tag, i)
+        if t == 'float':
+            c.float(v)
+            c.require('fits_f32(%s)' % v)
+            parts.append("pack('<f', %s)" % v)
+            checks.append('same_float(got, f32(%s))' % v)
+        elif t == 'FP16':
+            c.int(v, 0, 65535)       # the 16 bits of the half-precision value the device holds
+            parts.append("pack('<H', %s)" % v)
+            checks.append('same_float(got, fp16_value(%s))' % v)
+        else:
+            bits = 8 * size
+            if fmt[1].islower():
+                c.int(v, -(2 ** (bits - 1)), 2 ** (bits - 1) - 1)
+            else:
+                c.int(v, 0, 2 ** bits - 1)
+            parts.append("pack('%s', %s)" % (fmt, v))
+            checks.append("got == %s and typename(got) == 'int'" % v)
+    return ' + '.join(parts), checks
+
+
+def deliver_data(c, log, id_expr, body_expr):
+    c.snapshot('logdata', 'bytes([%s]) + %s' % (id_expr, body_expr))
+    c.call((log, '_new_packet_cb'), c.new(STK + ':CRTPPacket', 0x5E, c.get('logdata')))
+
+
+def sample_is(c, entry_expr, names, checks, tag, conf='conf', prefix=''):
+    """entry_expr evaluates to the (timestamp, data, block) triple handed to the application"""
+    c.snapshot('entry', entry_expr)
+    c.ensure(prefix + 'timestamp-and-block', 'len(entry) == 3 and entry[0] == ts%s and is_same(entry[2], %s)' % (tag, conf))
+    c.ensure(prefix + 'exactly-the-configured-names', "typename(entry[1]) == 'dict' and len(entry[1]) == %d and all(n in entry[1] for n in %r)" % (len(names), tuple(names)))
+    for nm, chk in zip(names, checks):
+        c.snapshot('got', 'entry[1][%r]' % nm)
+        c.ensure(prefix + 'value-of-%s' % nm, chk)
+
+
+def _data(label, types_or_n, bound):
+    @contract('C05', 'data.%s' % label, DATA_F,
+              clause='every log data packet of a block is decoded into exactly the 24-bit timestamp and the per-variable values the device encoded '
+                     '(little endian, in the order of the block, every value incl. extremes) and handed to the data callback exactly once',
+              bounded=bound)
+    def k(c):
+        if isinstance(types_or_n, int):
+            types = [c.choice('type%d' % i, TYPE_NAMES) for i in range(types_or_n)]
+        else:
+            types = list(types_or_n)
+        names = names_for(len(types))
+        table = list(zip(names, types))
+        cf, log, conf = added_config(c, table, table)
+        watch(c, conf)
+        c.set(conf, '_added', True), c.set(conf, '_started', True)
+        body, checks = device_sample(c, types, '')
+        c.reset_trace()
+        deliver_data(c, log, 'conf.id', body)
+        c.ensure('no-exception', 'raised is None')
+        c.ensure('one-data-callback-nothing-else', "len(sent('conf_data_received')) == 1 and len(trace) == 1")
+        sample_is(c, "sent('conf_data_received')[0][1]", names, checks, '')
+        c.ensure('flags-untouched', 'conf.added is True and conf.started is True')
+    return k
+
+
+_data('n0', [], 'configuration without variables')
+_data('n1.every-type', 1, 'one variable of each of the 8 types; value, timestamp, block id symbolic')
+_data('n2.every-type-pair', 2, 'two variables, all 64 type pairs; values, timestamp, block id symbolic')
+_data('n10.all-types26', TYPE_NAMES + ['uint32_t', 'uint16_t'], '10 variables using every type, payload exactly 26 bytes')
+_data('n26.bytes', ['uint8_t', 'int8_t'] * 13, '26 one-byte variables, payload exactly 26 bytes')
+_data('n7.words-half', ['float', 'uint32_t', 'int32_t', 'float', 'uint32_t', 'int32_t', 'FP16'], '7 variables, payload exactly 26 bytes')
+
+
+@contract('C05', 'data.routing', DATA_F,
+          clause='a data packet is decoded by the block whose id it carries and by no other; packets of unknown blocks are dropped',
+          bounded='two registered blocks (float+uint8 / int16), symbolic packet block id')
+def data_routing(c):
+    table = [('g0.v0', 'float'), ('g1.v1', 'uint8_t'), ('g2.v2', 'int16_t')]
+    cf, log = connected(c, table)
+    c.set(log, '_config_id_counter', c.int('next_id', 0, 253))
+    A = new_config(c, table[:2], name='A')
+    B = new_config(c, table[2:], name='B')
+    for b, nm in ((A, 'A'), (B, 'B')):
+        c.invoke((log, 'add_config'), b)
+        watch(c, b, nm)
+    which = c.choice('target', ['A', 'B', 'unknown'])
+    types = {'A': ['float', 'uint8_t'], 'B': ['int16_t'], 'unknown': ['uint8_t']}[which]
+    names = {'A': ['g0.v0', 'g1.v1'], 'B': ['g2.v2'], 'unknown': []}[which]
+    body, checks = device_sample(c, types, '')
+    c.int('bid', 0, 255)
+    c.require({'A': 'bid == A.id', 'B': 'bid == B.id', 'unknown': 'bid != A.id and bid != B.id'}[which])
+    c.reset_trace()
+    deliver_data(c, log, 'bid', body)
+    c.ensure('no-exception', 'raised is None')
+    if which == 'unknown':
+        c.ensure('dropped', 'len(trace) == 0')
+    else:
+        c.ensure('only-the-addressed-block-decodes', "len(sent('%s_data_received')) == 1 and len(trace) == 1" % which)
+        sample_is(c, "sent('%s_data_received')[0][1]" % which, names, checks, '', conf=which)
+
+
+@contract('C05', 'data.consecutive-packets', DATA_F,
+          clause='each decoded sample keeps the values of ITS packet: a sample handed out earlier is not changed by decoding later packets',
+          bounded='three consecutive packets of a block with float, uint16 and int8 variables')
+def data_consecutive(c):
+    types = ['float', 'uint16_t', 'int8_t']
+    names = names_for(3)
+    table = list(zip(names, types))
+    cf, log, conf = added_config(c, table, table)
+    watch(c, conf)
+    samples = []
+    for tag in ('a', 'b', 'c'):
+        body, checks = device_sample(c, types, tag)
+        deliver_data(c, log, 'conf.id', body)
+        c.ensure('no-exception-' + tag, 'raised is None')
+        samples.append(checks)
+    c.ensure('one-callback-per-packet-in-order', "len(sent('conf_data_received')) == 3 and len(trace) == 3")
+    for k, tag in enumerate('abc'):
+        sample_is(c, "sent('conf_data_received')[%d][1]" % k, names, samples[k], tag, prefix='sample-%s-' % tag)
+
+
+# --------------------------------------------------------------------------------------- histories
+
+LIFE_F = ADD_F + CREATE_F + ACK_F + [LOG + ':LogConfig.stop', LOG + ':LogConfig.delete', LOG + ':Log.refresh_toc', LOG + ':Log._send_reset_packet']
+
+
+def entries_expr(variables, table, idents):
+    """expected device view of the block: (type byte, table index) per configured variable, in the order of the configuration"""
+    return '(' + ''.join('(%d, %s), ' % (fid + 16 * sid, idents[nm]) for nm, fid, sid, _k in expected_variables(variables, table)) + ')'
+
+
+def expect_flags(c, tag, added, started, n_added_cb, n_started_cb, name='conf'):
+    c.ensure(tag + '-flags', '%s.added is %r and %s.started is %r' % (name, added, name, started))
+    c.ensure(tag + '-callbacks', "len(sent('%s_added')) == %d and len(sent('%s_started')) == %d and len(sent('%s_error')) == 0" % (
+        name, n_added_cb, name, n_started_cb, name))
+
+
+@contract('C05', 'lifecycle', LIFE_F,
+          clause='add / start / acknowledge / stop / restart / delete / start-again history of one block: creation and command messages are exact, '
+                 'the added/started flags and callbacks change exactly at the acknowledgements, and a deleted block is created again with the same variables',
+          bounded='one block of three variables (explicitly typed and table-typed mixed); block id, period, table indices symbolic; create status 0/EEXIST, delete status 0/ENOENT')
+def lifecycle(c):
+    names = names_for(3)
+    table = list(zip(names, ['float', 'uint16_t', 'int8_t']))
+    variables = [(names[0], 'float'), (names[1], None), (names[2], 'int8_t')]
+    cf, log = connected(c, table)
+    idents = {nm: 'ident_%d' % i for i, nm in enumerate(names)}
+    c.set(log, '_config_id_counter', c.int('next_id', 0, 254))
+    conf = new_config(c, variables, period=c.int('period', 1, 254))
+    watch(c, conf)
+    do_add_config(c, log, conf)
+    check_add_config(c, log, conf, variables, table, tag='add-')
+    expected = entries_expr(variables, table, idents)
+    # first start: the block does not exist yet -> creation messages
+    c.reset_trace()
+    c.call((conf, 'start'))
+    c.ensure('start-1-no-exception', 'raised is None')
+    creation_matches(c, device_decode_creation(c), expected)
+    expect_flags(c, 'requested', False, False, 0, 0)
+    # the device acknowledges the creation -> the library starts the block
+    c.reset_trace()
+    deliver_settings(c, log, '6', 'conf.id', str(c.choice('create_status', [0, EEXIST])))
+    c.ensure('create-ack-handled', "raised is None and len(sent('cf.send_packet')) == 1 and len(calls('cf.')) == 1")
+    c.ensure('start-message-after-create-ack', settings_message_is(c, 0, "pack('<BBB', 3, conf.id, period)", '(3, conf.id)'))
+    expect_flags(c, 'created', True, False, 1, 0)
+    c.ensure('added-callback-arguments', "is_same(sent('conf_added')[0][1][0], conf) and sent('conf_added')[0][1][1] is True")
+    c.reset_trace()
+    deliver_settings(c, log, '3', 'conf.id', '0')
+    c.ensure('start-ack-handled', "raised is None and len(calls('cf.')) == 0")
+    expect_flags(c, 'started', True, True, 0, 1)
+    c.ensure('started-callback-arguments', "is_same(sent('conf_started')[0][1][0], conf) and sent('conf_started')[0][1][1] is True")
+    # a duplicated create acknowledgement (retry) changes nothing
+    c.reset_trace()
+    deliver_settings(c, log, '6', 'conf.id', '0')
+    c.ensure('duplicate-create-ack-ignored', 'raised is None and len(trace) == 0 and conf.added is True and conf.started is True')
+    # stop
+    c.reset_trace()
+    c.call((conf, 'stop'))
+    c.ensure('stop-sends-one-message', "raised is None and len(sent('cf.send_packet')) == 1 and len(trace) == 1")
+    c.ensure('stop-message', settings_message_is(c, 0, "pack('<BB', 4, conf.id)", '(4, conf.id)'))
+    expect_flags(c, 'stop-requested', True, True, 0, 0)
+    c.reset_trace()
+    deliver_settings(c, log, '4', 'conf.id', '0')
+    c.ensure('stop-ack-handled', "raised is None and len(calls('cf.')) == 0")
+    expect_flags(c, 'stopped', True, False, 0, 1)
+    c.ensure('stopped-callback-arguments', "is_same(sent('conf_started')[0][1][0], conf) and sent('conf_started')[0][1][1] is False")
+    # start of an existing block: only the start command
+    c.reset_trace()
+    c.call((conf, 'start'))
+    c.ensure('restart-sends-one-message', "raised is None and len(sent('cf.send_packet')) == 1 and len(trace) == 1")
+    c.ensure('restart-message', settings_message_is(c, 0, "pack('<BBB', 3, conf.id, period)", '(3, conf.id)'))
+    c.reset_trace()
+    deliver_settings(c, log, '3', 'conf.id', '0')
+    expect_flags(c, 'restarted', True, True, 0, 1)
+    # delete
+    c.reset_trace()
+    c.call((conf, 'delete'))
+    c.ensure('delete-sends-one-message', "raised is None and len(sent('cf.send_packet')) == 1 and len(trace) == 1")
+    c.ensure('delete-message', settings_message_is(c, 0, "pack('<BB', 2, conf.id)", '(2, conf.id)'))
+    expect_flags(c, 'delete-requested', True, True, 0, 0)
+    c.reset_trace()
+    deliver_settings(c, log, '2', 'conf.id', str(c.choice('delete_status', [0, ENOENT])))
+    c.ensure('delete-ack-handled', "raised is None and len(calls('cf.')) == 0")
+    expect_flags(c, 'deleted', False, False, 1, 1)
+    c.ensure('deleted-callback-arguments', "sent('conf_added')[0][1][1] is False and sent('conf_started')[0][1][1] is False")
+    variable_state(c, conf)
+    c.ensure('variable-list-unchanged-by-the-history', 'vars_of_conf == expected')
+    # started again after the deletion: created again, same variables
+    c.reset_trace()
+    c.call((conf, 'start'))
+    c.ensure('start-2-no-exception', 'raised is None')
+    creation_matches(c, device_decode_creation(c), expected)
+
+
+@contract('C05', 'commands.no-link', [LOG + ':LogConfig.start', LOG + ':LogConfig.stop', LOG + ':LogConfig.delete'],
+          clause='nothing is sent for a block once the link is gone')
+def commands_no_link(c):
+    table = [('g0.v0', 'float')]
+    cf, log, conf = added_config(c, table, table)
+    c.set(conf, '_added', c.bool('added'))
+    c.set(cf, 'link', None)
+    c.reset_trace()
+    for m in ('start', 'stop', 'delete'):
+        c.call((conf, m))
+        c.ensure(m + '-silent', 'raised is None and len(trace) == 0')
+
+
+READD_TYPINGS = {'explicit': (1, 1, 1), 'from-table': (0, 0, 0), 'mixed-a': (0, 1, 0), 'mixed-b': (1, 0, 0), 'mixed-c': (0, 0, 1)}
+
+
+def _readd(typing):
+    @contract('C05', 'readd.%s' % typing, LIFE_F,
+              clause='re-adding a configuration after a reconnect does not change its variable list: whatever happened to it in the earlier session '
+                     '(accepted, or rejected because a variable was missing from that table, with nothing sent), after the re-add it holds exactly the '
+                     'configured variables once each and the creation messages enumerate exactly those with the indices of the NEW table',
+              bounded='three variables (float, int16, FP16), typing pattern %s; variable missing in the first session: none/first/second/third; '
+                      'two reconnects; table indices of every session symbolic' % typing)
+    def k(c):
+        names = names_for(3)
+        types = ['float', 'int16_t', 'FP16']
+        full = list(zip(names, types))
+        variables = [(nm, ty if e else None) for (nm, ty), e in zip(full, READD_TYPINGS[typing])]
+        missing = c.choice('missing_in_first_session', ['none', 0, 1, 2])
+        table1 = [x for i, x in enumerate(full) if i != missing]
+        cf, log = connected(c, table1)
+        conf = new_config(c, variables)
+        do_add_config(c, log, conf)
+        check_add_config(c, log, conf, variables, table1, tag='session1-')
+        # reconnect to a Crazyflie that has all the variables (other table indices), add the same object again
+        idents = new_session(c, log, full, tag='b')
+        c.ensure('registrations-dropped-at-reconnect', 'log.log_blocks == []')
+        do_add_config(c, log, conf)
+        c.ensure('session2-accepted', 'raised is None')
+        check_add_config(c, log, conf, variables, full, tag='session2-')
+        # and once more
+        idents = new_session(c, log, list(reversed(full)), tag='c')
+        do_add_config(c, log, conf)
+        c.ensure('session3-accepted', 'raised is None')
+        check_add_config(c, log, conf, variables, full, tag='session3-')
+        c.reset_trace()
+        c.call((conf, 'start'))
+        c.ensure('start-no-exception', 'raised is None')
+        creation_matches(c, device_decode_creation(c), entries_expr(variables, full, idents))
+    return k
+
+
+for _t in READD_TYPINGS:
+    _readd(_t)
+
+
+@contract('C05', 'readd.block-created-in-new-session', LIFE_F,
+          clause='a configuration that was added (and started) in an earlier session and is added again after a reconnect is created on the new '
+                 'device when started: the creation messages enumerate its variables',
+          bounded='two variables; the first session ends by link loss (no delete acknowledged)',
+          thorough_only=True)          # FINDING on the unchanged tree (see module docstring): kept, excluded from the quick run
+def readd_created_again(c):
+    names = names_for(2)
+    table = list(zip(names, ['float', 'uint8_t']))
+    cf, log = connected(c, table)
+    conf = new_config(c, table)
+    watch(c, conf)
+    do_add_config(c, log, conf)
+    c.call((conf, 'start'))
+    deliver_settings(c, log, '6', 'conf.id', '0')
+    deliver_settings(c, log, '3', 'conf.id', '0')
+    c.ensure('session1-added-and-started', 'conf.added is True and conf.started is True')
+    idents = new_session(c, log, table, tag='b')
+    do_add_config(c, log, conf)
+    check_add_config(c, log, conf, table, table, tag='session2-')
+    c.reset_trace()
+    c.call((conf, 'start'))
+    c.ensure('start-no-exception', 'raised is None')
+    c.ensure('creation-requested-in-new-session', "len(sent('cf.send_packet')) >= 1 and sent('cf.send_packet')[0][1][0].data[0] == 6")
+    if len(c.get('trace')) and c.concretize("sent('cf.send_packet')[0][1][0].data[0]") == 6:
+        creation_matches(c, device_decode_creation(c), entries_expr(table, table, idents))
+
+
+# --------------------------------------------------------------------------------------- SyncLogger
+
+SYNC_F = [SYN + ':SyncLogger.__init__', SYN + ':SyncLogger.connect', SYN + ':SyncLogger.disconnect', SYN + ':SyncLogger.__next__',
+          SYN + ':SyncLogger._log_callback', SYN + ':SyncLogger._disconnected', SYN + ':SyncLogger.is_connected',
+          LOG + ':LogConfig.unpack_log_data', LOG + ':Log._new_packet_cb']
+SYNC_TYPES = ['float', 'uint16_t', 'int8_t']
+URI = 'radio://0/80/2M'
+
+
+def sync_setup(c, n_configs=1, as_list=False):
+    """connected log, `disconnected` a real Caller, configurations conf0.. (three variables each) and a real SyncLogger"""
+    names = names_for(3 * n_configs)
+    table = list(zip(names, SYNC_TYPES * n_configs))
+    cf, log = connected(c, table)
+    disc = c.new('cflib.utils.callbacks:Caller')
+    c.set(cf, 'disconnected', disc)
+    c.let('disc', disc)
+    confs = [new_config(c, table[3 * i:3 * i + 3], name='conf%d' % i) for i in range(n_configs)]
+    sl = c.new(SYN + ':SyncLogger', cf, confs if (as_list or n_configs > 1) else confs[0])
+    c.let('sl', sl)
+    c.reset_trace()
+    return cf, log, disc, confs, sl, names
+
+
+def sync_connect(c, log, sl, confs):
+    c.reset_trace()
+    c.call((sl, 'connect'))
+    c.ensure('connect-no-exception', 'raised is None and sl.is_connected() is True')
+    for i in range(len(confs)):
+        deliver_settings(c, log, '6', 'conf%d.id' % i, '0')
+        deliver_settings(c, log, '3', 'conf%d.id' % i, '0')
+        c.ensure('conf%d-running' % i, 'raised is None and conf%d.added is True and conf%d.started is True' % (i, i))
+
+
+def _sync_session(schedule, ending):
+    @contract('C05', 'synclogger.session.%s.%s' % (schedule or 'idle', ending), SYNC_F,
+              clause='SyncLogger adds and starts its configuration, yields each decoded sample exactly once, in arrival order, with the values of its '
+                     'own packet, and stops at disconnect (explicit disconnect: stop and delete are sent; link loss: nothing is sent); packets after '
+                     'the disconnect are not queued',
+              bounded='one configuration (float, uint16, int8); arrival(D)/read(N) schedule %r; all values symbolic' % schedule)
+    def k(c):
+        cf, log, disc, confs, sl, names = sync_setup(c)
+        sync_connect(c, log, sl, confs)
+        c.ensure('registered-and-listening', 'len(log.log_blocks) == 1 and is_same(log.log_blocks[0], conf0) and len(disc.callbacks) == 1 '
+                 'and len(conf0.data_received_cb.callbacks) == 1')
+        c.snapshot('msgs0', "sent('cf.send_packet')")
+        c.ensure('creation-then-start-requested', 'len(msgs0) == 2 and msgs0[0][1][0].data[0] == 6 and msgs0[1][1][0].data[0] == 3')
+        arrived = []
+        read = 0
+        for step, ev in enumerate(schedule):
+            if ev == 'D':
+                tag = 's%d' % len(arrived)
+                body, checks = device_sample(c, SYNC_TYPES, tag)
+                deliver_data(c, log, 'conf0.id', body)
+                c.ensure('packet-%d-handled' % step, 'raised is None')
+                arrived.append((tag, checks))
+            else:
+                c.call((sl, '__next__'))
+                c.ensure('read-%d-returns' % step, 'raised is None')
+                tag, checks = arrived[read]
+                sample_is(c, 'result', names, checks, tag, conf='conf0', prefix='read-%d-' % step)
+                read += 1
+            c.ensure('queue-length-%d' % step, 'sl._queue.qsize() == %d' % (len(arrived) - read))
+        c.reset_trace()
+        if ending == 'link-lost':
+            c.set(cf, 'link', None)
+            c.reset_trace()
+            c.call((disc, 'call'), URI)
+            c.ensure('link-loss-handled-silently', "raised is None and len(calls('cf.')) == 0")
+        else:
+            c.call((sl, 'disconnect'))
+            c.ensure('disconnect-no-exception', 'raised is None')
+            c.ensure('stop-then-delete-sent', "len(sent('cf.send_packet')) == 2 and len(calls('cf.')) == 2")
+            c.ensure('stop-message', settings_message_is(c, 0, "pack('<BB', 4, conf0.id)", '(4, conf0.id)'))
+            c.ensure('delete-message', settings_message_is(c, 1, "pack('<BB', 2, conf0.id)", '(2, conf0.id)'))
+        c.ensure('disconnected-state', 'sl.is_connected() is False and len(disc.callbacks) == 0 and len(conf0.data_received_cb.callbacks) == 0')
+        c.snapshot('qlen', 'sl._queue.qsize()')
+        c.call((sl, '__next__'))
+        c.ensure('iteration-ends-at-disconnect', "raised == 'StopIteration'")
+        body, _checks = device_sample(c, SYNC_TYPES, 'late')
+        deliver_data(c, log, 'conf0.id', body)
+        c.ensure('late-packet-not-queued', 'raised is None and sl._queue.qsize() == qlen')
+    return k
+
+
+for _s in ('', 'DN', 'DDDNNN', 'DNDDNN', 'DD'):
+    for _e in ('link-lost', 'disconnect'):
+        _sync_session(_s, _e)
+
+
+@contract('C05', 'synclogger.blocks-when-empty', SYNC_F,
+          clause='with no sample available the iterator blocks (it never invents or repeats a sample)',
+          bounded='one sample arrived and read, second read')
+def sync_blocks(c):
+    cf, log, disc, confs, sl, names = sync_setup(c)
+    sync_connect(c, log, sl, confs)
+    body, checks = device_sample(c, SYNC_TYPES, 's0')
+    deliver_data(c, log, 'conf0.id', body)
+    c.call((sl, '__next__'))
+    c.ensure('first-read-returns', 'raised is None')
+    c.call((sl, '__next__'))
+    c.ensure('second-read-blocks', "raised == 'Deadlock'")
+
+
+@contract('C05', 'synclogger.connect-twice', SYNC_F,
+          clause='a second connect of a connected SyncLogger is refused and adds / sends nothing')
+def sync_twice(c):
+    cf, log, disc, confs, sl, names = sync_setup(c)
+    sync_connect(c, log, sl, confs)
+    c.reset_trace()
+    c.call((sl, 'connect'))
+    c.ensure('refused-without-effect', "raised == 'Exception' and len(trace) == 0 and len(log.log_blocks) == 1 and len(disc.callbacks) == 1 and "
+             "len(conf0.data_received_cb.callbacks) == 1 and sl.is_connected() is True")
+
+
+@contract('C05', 'synclogger.two-configs', SYNC_F,
+          clause='with several configurations every one is added and started, and the samples of all of them are yielded once each in arrival order',
+          bounded='two configurations of three variables; arrivals conf1, conf0, conf1 then three reads')
+def sync_two(c):
+    cf, log, disc, confs, sl, names = sync_setup(c, 2)
+    sync_connect(c, log, sl, confs)
+    c.ensure('both-registered', 'len(log.log_blocks) == 2 and conf0.id != conf1.id')
+    order = [1, 0, 1]
+    arrived = []
+    for k, which in enumerate(order):
+        body, checks = device_sample(c, SYNC_TYPES, 's%d' % k)
+        deliver_data(c, log, 'conf%d.id' % which, body)
+        c.ensure('packet-%d-handled' % k, 'raised is None')
+        arrived.append(checks)
+    for k, which in enumerate(order):
+        c.call((sl, '__next__'))
+        c.ensure('read-%d-returns' % k, 'raised is None')
+        sample_is(c, 'result', names[3 * which:3 * which + 3], arrived[k], 's%d' % k, conf='conf%d' % which, prefix='read-%d-' % k)
+    c.reset_trace()
+    c.call((sl, 'disconnect'))
+    c.snapshot('cmds', "tuple((e[1][0].data[0], e[1][0].data[1]) for e in sent('cf.send_packet'))")
+    c.ensure('every-config-stopped-and-deleted', 'raised is None and cmds == ((4, conf0.id), (2, conf0.id), (4, conf1.id), (2, conf1.id))')
+
+
+@contract('C05', 'synclogger.reuse', SYNC_F,
+          clause='a SyncLogger connected again after a disconnect yields the samples of the new session, ending at the disconnect of that session '
+                 '(no sample or end marker of the earlier session is delivered in the new one)',
+          bounded='one sample in the first session left unread at link loss, one sample in the second session',
+          thorough_only=True)          # FINDING on the unchanged tree (see module docstring): kept, excluded from the quick run
+def sync_reuse(c):
+    cf, log, disc, confs, sl, names = sync_setup(c)
+    sync_connect(c, log, sl, confs)
+    body, checks_old = device_sample(c, SYNC_TYPES, 'old')
+    deliver_data(c, log, 'conf0.id', body)
+    c.call((sl, 'disconnect'))
+    deliver_settings(c, log, '4', 'conf0.id', '0')
+    deliver_settings(c, log, '2', 'conf0.id', '0')
+    c.call((disc, 'call'), URI)
+    c.ensure('session1-over', 'sl.is_connected() is False and conf0.added is False')
+    new_session(c, log, list(zip(names, SYNC_TYPES)), tag='b')
+    sync_connect(c, log, sl, confs)
+    body, checks_new = device_sample(c, SYNC_TYPES, 'new')
+    deliver_data(c, log, 'conf0.id', body)
+    c.call((sl, '__next__'))
+    c.ensure('read-returns', 'raised is None')
+    if c.get('raised') is None:
+        sample_is(c, 'result', names, checks_new, 'new', conf='conf0', prefix='first-read-of-new-session-')
